@@ -690,7 +690,8 @@ func IsNilForMarshaler(v interface{}) bool {
 	case reflect.Uint, reflect.Uint8, reflect.Uint16, reflect.Uint32, reflect.Uint64, reflect.Uintptr:
 		return rv.Uint() == 0
 	case reflect.Float32, reflect.Float64:
-		return math.Float64bits(rv.Float()) == 0
+		// ( -0 is empty as well: encoding/json compares the number with 0 )
+		return rv.Float() == 0
 	case reflect.Interface, reflect.Ptr, reflect.Func:
 		return rv.IsNil()
 	case reflect.Slice, reflect.Map:
